@@ -411,7 +411,7 @@ Fixpoint ref_trace (s : pst) (rs : list req) :=
 HEADER = '// This file was automatically created by py4hw Verilog generator\n'
 _PORT = re.compile(r'^(input|output|inout)\s+(?:reg\s+)?(?:\[\d+:0\]\s+)?(\w+)$')
 _DECL = re.compile(r'^wire (?:\[\d+:0\] )?(\w+);$')
-_INST = re.compile(r'^(\w+) (?:#\(.*?\) )?i_(\w+)\((.*)\);$')
+_INST = re.compile(r'^(\S+) (?:#\(.*?\) )?i_(\w+)\((.*)\);$')      # module names may contain '-' (Reg8_v-259)
 _CONN = re.compile(r'\.(\w+)\((\w*)\)')
 
 
